@@ -6,7 +6,7 @@ from dv import engine, render
 unit, h = sys.argv[1], sys.argv[2]
 tmo = int(sys.argv[3]) if len(sys.argv) > 3 else 200
 u = [x for x in engine.load_units() if x['name'] == unit][0]
-ex = render.Extraction('/repo')
+ex = render.Extraction(engine.REPO)
 bdir = '/verif/build/X_' + unit
 engine.write_kani_crate(u, u['kani'], bdir, ex)
 env = dict(os.environ, CARGO_NET_OFFLINE='true')
